@@ -44,6 +44,11 @@ CLAIMED = {
              design='4/C14',
              note='Trusted: hand models Typing.v/TypeSym.v (the structural equivalence model is tied at class level only), extraction, utapdump. Classes cost/formula/string are not realisable as operands in the fixture. '
                   'Two defects repaired by fix: commits; known finding C14-inline-if-int-bool-kind.'),
+ 'C17': dict(technique='Coq soundness and irrelevance proofs over a hand model of FeatureChecker on abstract documents; verdict correspondence and specification oracle on generated models',
+             text='symbolic/stochastic/concrete soundness (supported implies none of the restricting features occurs in the globals or in any instantiated template, at any depth of the boolean structure), irrelevance of never-instantiated templates, '
+                  'invariance under permutation of declarations, templates, edges and conjuncts, operand-order symmetry; tied by comparing the extracted model\'s verdict with the implementation on targeted placements of every feature and on random documents.',
+             design='4/C17',
+             note='Trusted: hand model Feature.v (tied by correspondence), the abstraction of expressions to uses_fp/uses_clock flags realised by representative expressions, the XML renderer, extraction. Dynamic templates are modelled but not generated. Four defects repaired by fix: commits.'),
 }
 NOT_YET = 'check not built yet in this revision (work in progress, see DESIGN.md section 7 staging)'
 m = dict(version=1, setup_cmd='tools/setup.sh',
